@@ -32,6 +32,10 @@ def generate(rng, tier, shard, nshards):
             A2 = aops.rand_wfsa(rng, srn, nS=3, narcs=4, labels=("a", "b"), acyclic=True)
             A2["F"] = [[q, w] for q, w in A2["F"] if q != 0] or [[2, A2["I"][0][1]]]
             A2["I"] = [x for x in A2["I"] if x[0] == 0][:1]
+            if i % 2 == 0:
+                # the operand accepts the empty string with a weight in (0, 1): the star sums a geometric series
+                A2["I"] = [[0, [1, 2]]]
+                A2["F"].append([0, rng.choice([[1, 2], [1, 4], [1, 1]])])
             for fn in ("star", "kleene_plus"):
                 yield aops.event("wop", {"sr": srn, "A": A2, "sigma": sig, "L": 3, "fn": fn, "style": style, "cls": cls},
                                  site=f"WFSA.{fn}", feat=aops.afeat(A2))
